@@ -58,14 +58,26 @@ def check(P: Project, R: Report) -> None:
             return False
         i = loop.body[0]
         t = ast.unparse(i.test)
-        if t not in (f"{x} == {p}", f"{p} == {x}"):
+        # (`x is p or x == p` is what `in` itself does: identity first, then equality)
+        if t not in (f"{x} == {p}", f"{p} == {x}", f"{x} is {p} or {x} == {p}", f"{p} is {x} or {p} == {x}", f"{x} is {p} or {p} == {x}", f"{p} is {x} or {x} == {p}"):
             return False
         return len(i.body) == 1 and isinstance(i.body[0], ast.Return) and isinstance(i.body[0].value, ast.Constant) and i.body[0].value.value is True
 
     loop_form = _search_loop_form()
+
+    def _decided_by_comparisons(st: PState, node: ast.Return) -> bool:
+        """the search written out (or unrolled from the list): `True` only where the value was found equal to (or to be) a member,
+        `False` only where it was found different from every member"""
+        v = node.value
+        if not (isinstance(v, ast.Constant) and isinstance(v.value, bool)):
+            return False
+        if v.value:
+            return any(st.has(l) for m in supported for l in (f"{m!r} == {p}", f"{p} == {m!r}", f"{m!r} is {p}", f"{p} is {m!r}"))
+        return all(st.has(f"{m!r} != {p}") or st.has(f"{p} != {m!r}") for m in supported)
+
     for st, node in io.ret:
         txt = subst_text(node.value, st) if node.value is not None else "None"
-        R.ob("R1", "is_supported is membership of the value itself in SUPPORTED_VERSIONS", txt == f"{p} in SUPPORTED_VERSIONS" or loop_form, f"{iss.module.rel}:{node.lineno}",
+        R.ob("R1", "is_supported is membership of the value itself in SUPPORTED_VERSIONS", txt == f"{p} in SUPPORTED_VERSIONS" or loop_form or _decided_by_comparisons(st, node), f"{iss.module.rel}:{node.lineno}",
              f"is_supported decides `{txt}`: the sanitiser accepts values other than the members of the list (the handler then acknowledges the raw request value)")
     R.ob("R1", "is_supported cannot fall off the end or raise", not io.normal and not io.exc, iss.where, "")
     cur = try_fold(P, P.module(A.MOD_VERSION), ast.Name(id="CURRENT_VERSION", ctx=ast.Load()))
